@@ -1,10 +1,10 @@
 (* C18 — schema reflection over arbitrary proto3 descriptors is total and self-consistent.
    Only statements, closed by [exact lemma], with Print Assumptions beneath. *)
-From Coq Require Import String List NArith ZArith Bool.
+From Coq Require Import String List NArith ZArith Bool Permutation.
 From J5V.lib Require Import Outcome.
 From J5V.model Require Import ReflectDesc ReflectSchema Reflect ReflectSpec.
 From J5V.gen Require ReflectGen.
-From J5V.proofs Require Import ReflectProofs ExportProofs ReflectInvProofs ReflectPathProofs ReflectFuelProofs ReflectFlattenProofs ReflectCodecProofs ReflectDeclProofs ReflectClassProofs.
+From J5V.proofs Require Import ReflectProofs ExportProofs ReflectInvProofs ReflectPathProofs ReflectFuelProofs ReflectFlattenProofs ReflectCodecProofs ReflectDeclProofs ReflectClassProofs ReflectOrderProofs.
 From J5V.model Require Import Export ReflectDecl.
 Import ListNotations.
 
@@ -221,6 +221,33 @@ Theorem C18_cache_hit : forall D fuel st m r,
   lookup st (msg_key m) = Some (Linked r) -> cache_schema D fuel st m = (st, Ok r).
 Proof. exact cache_hit. Qed.
 Print Assumptions C18_cache_hit.
+
+(* ---- SchemaSetFromFiles does not depend on the order in which the files are visited
+   (protoregistry.RangeFiles ranges over a Go map: the order is random on the real code). The loop over
+   the messages is a call history on one set, so by cache transparency (wf_keys) the reflection
+   succeeds exactly when every selected message can be built on its own ([fresh_ok]) and every
+   selected enum is well-formed ([enum_ok]): a condition on the SET of selected names; and the entries
+   are the declared schemas whatever the order. *)
+Theorem C18_reflect_succeeds_iff : forall D, wf_keys D -> forall fs,
+  (exists S, reflect D fs = Ok S) <->
+  (forall full, In full (fst (collect fs)) -> fresh_ok D full) /\ (forall full, In full (snd (collect fs)) -> enum_ok D full).
+Proof. exact reflect_ok_iff. Qed.
+Print Assumptions C18_reflect_succeeds_iff.
+
+Theorem C18_reflect_file_order_independent : forall D, wf_keys D -> forall fs fs',
+  Permutation fs fs' -> ((exists S, reflect D fs = Ok S) <-> (exists S', reflect D fs' = Ok S')).
+Proof. exact reflect_file_order_independent. Qed.
+Print Assumptions C18_reflect_file_order_independent.
+
+Theorem C18_reflect_order_independent : forall D, wf_keys D -> forall fs fs',
+  (forall x, In x (fst (collect fs)) <-> In x (fst (collect fs'))) ->
+  (forall x, In x (snd (collect fs)) <-> In x (snd (collect fs'))) ->
+  ((exists S, reflect D fs = Ok S) <-> (exists S', reflect D fs' = Ok S')) /\
+  (forall S S', reflect D fs = Ok S -> reflect D fs' = Ok S' ->
+     (forall m r r', In m (d_msgs D) -> lookup S (msg_key m) = Some (Linked r) -> lookup S' (msg_key m) = Some (Linked r') -> r = r') /\
+     (forall e r r', In e (d_enums D) -> lookup S (enum_key e) = Some (Linked r) -> lookup S' (enum_key e) = Some (Linked r') -> r = r')).
+Proof. exact reflect_order_independent. Qed.
+Print Assumptions C18_reflect_order_independent.
 
 (* each proto kind is handled by an arm or rejected with an error, as the Go switches list them *)
 Theorem C18_scalar_arms_are_the_code's :
